@@ -196,10 +196,13 @@ def bvn_cdf(x, y, mu_x=0.0, mu_y=0.0, sigma_xx=1.0, sigma_yy=1.0, sigma_xy=0.0):
                 ind1 = asr1 > -100
                 cdim2 = np.outer(rhk8, dim2)
                 sp1 = 1.0 + np.multiply(np.multiply(cdim2, dim1xs), 1.0 + np.multiply(rhk16dim2, dim1xs))
-                ep1 = np.divide(np.exp(np.divide(-np.multiply(hkdim2, (1.0 - dim1rs)),
-                                                 2.0 * (1.0 + dim1rs))), dim1rs)
+                # ep1 overflows to inf where asr1 <= -100; those entries are masked out
+                # below (inf * 0 would be nan)
+                with np.errstate(over="ignore"):
+                    ep1 = np.divide(np.exp(np.divide(-np.multiply(hkdim2, (1.0 - dim1rs)),
+                                                     2.0 * (1.0 + dim1rs))), dim1rs)
                 bvn = bvn + np.sum(np.multiply(np.multiply(np.multiply(sopmr, dim1w), np.exp(np.multiply(asr1, ind1))),
-                                               np.multiply(ep1, ind1) - np.multiply(sp1, ind1)), axis=1)
+                                               np.where(ind1, ep1, 0.0) - np.multiply(sp1, ind1)), axis=1)
             bvn = -bvn / (2.0 * np.pi)
 
         if r > 0:
